@@ -10,6 +10,59 @@ EVIDENCE_DIR = os.path.join(VERIF, "evidence")
 KNOWN_FILE = os.path.join(VERIF, "known_findings.json")
 
 
+class SubRun(object):
+    """The view of a Run that an included rule module writes through."""
+
+    def __init__(self, parent):
+        self._p = parent
+        self.prop = parent.prop
+        self.tier = parent.tier
+        self.repo = parent.repo
+        self.res = parent.res
+        self.extra = {}            # the included module's explanation text is not this property's
+        self.units = parent.units
+        self.infos = parent.infos
+        self.assumptions = parent.assumptions
+        self.t0 = parent.t0
+
+    def _r(self, rule):
+        return rule if rule.startswith(self._p.prop + ".") else "%s.%s" % (self._p.prop, rule)
+
+    @property
+    def obligations(self):
+        return self._p.obligations
+
+    def site(self, fi_or_mod, node=None):
+        return self._p.site(fi_or_mod, node)
+
+    def ok(self, rule, site, detail=""):
+        self._p.ok(self._r(rule), site, detail)
+
+    def violation(self, rule, key, site, msg, path=None):
+        self._p.violation(self._r(rule), key, site, msg, path)
+
+    def check(self, cond, rule, key, site, ok_detail, bad_msg, path=None):
+        return self._p.check(cond, self._r(rule), key, site, ok_detail, bad_msg, path)
+
+    def info(self, msg):
+        self._p.info(msg)
+
+    def assume(self, msg):
+        self._p.assume(msg)
+
+    def need(self, cond, msg):
+        self._p.need(cond, msg)
+
+    def count(self, rule_prefix):
+        return self._p.count(self._r(rule_prefix))
+
+    def require_min(self, rule_prefix, n):
+        self._p.require_min(self._r(rule_prefix), n)
+
+    def include(self, prop_id):
+        pass                        # inclusion is not transitive: the including property lists what it needs
+
+
 class Run(object):
     def __init__(self, prop_id, tier, repo, resolver):
         self.prop = prop_id
@@ -71,6 +124,17 @@ class Run(object):
                 "rule %s matched %d instance(s), fewer than the %d confirmed by hand: the rule would "
                 "pass vacuously" % (rule_prefix, c, n)
             )
+
+    # ------------------------------------------------------------------------ inclusion
+    def include(self, prop_id):
+        """Runs the rule module of another property as a necessary condition of this one: its obligations are filed under
+        <this property>.<their rule name> (C14 + C02.FLOW-THROW -> C14.C02.FLOW-THROW)."""
+        import importlib
+        if prop_id == self.prop:
+            return
+        mod = importlib.import_module("sa.rules.%s" % prop_id.lower())
+        mod.run(SubRun(self))
+        self.included = getattr(self, "included", []) + [prop_id]
 
     # ------------------------------------------------------------------------ finishing
     def finish(self, selftest=None):
